@@ -43,11 +43,17 @@ def _self(E, cfg, kind, fitted):
 
 @contract(F + "::ExtendedFeatures.fit", "C11")
 class Fit(Contract):
-    variants = [(c, k) for c in CONFIGS for k in ("poly", "poly-slow")]
+    # a fresh instance, and an instance fitted before (same number of input columns, ANOTHER configuration since then - set_params between two
+    # fits): whatever the earlier fit left, the attributes describe the current configuration afterwards
+    variants = [(c, k, st) for c in CONFIGS for k in ("poly", "poly-slow") for st in (False, True)]
 
     def setup(self, E, v):
-        cfg, kind = v
-        return dict(self=_self(E, cfg, kind, False), X=E.nd("X", (E.size("m", 0), cfg[0])), _cfg=cfg)
+        cfg, kind, stale = v
+        s = _self(E, cfg, kind, False)
+        if stale:
+            s.fields["n_input_features_"] = cfg[0]
+            s.fields["n_output_features_"] = E.int("left_by_an_earlier_fit")
+        return dict(self=s, X=E.nd("X", (E.size("m", 0), cfg[0])), _cfg=cfg)
 
     def ensures(self, E, a, res, old, drop_last=False):
         s = a.self
